@@ -535,7 +535,70 @@ func (x *xtr) callStmt(c *ast.CallExpr) string {
 		}
 		return fmt.Sprintf("let %s : %s := %s %s %s", ident(id.Name), ty.lean(), fn, ident(id.Name), x.co(c.Args[1], cmp, want))
 	}
+	if name == "copy" {
+		return x.copyStmt(c)
+	}
 	x.bad(c, "call statement %s", name)
+	return ""
+}
+
+// copy(dst, src) as a statement (the count it returns is dropped by Go too).  dst is `v`, `v[lo:hi]`, `s.f` or `s.f[lo:hi]` for
+// a slice variable v / a modelled slice field f of a struct variable s: the first min(len(dst), len(src)) items of the
+// destination WINDOW are overwritten (Go.copyInto), the rest of the variable stays.  The usual alias rules apply: a destination
+// that may share its backing array with another variable is rejected (the source is a different value by assumption for parameters)
+func (x *xtr) copyStmt(c *ast.CallExpr) string {
+	if len(c.Args) != 2 {
+		x.bad(c, "copy arity")
+	}
+	dst := c.Args[0]
+	lo, hi := "0", ""
+	if se, ok := dst.(*ast.SliceExpr); ok {
+		if se.Slice3 {
+			x.bad(c, "copy into a 3-index slice")
+		}
+		if se.Low != nil {
+			lo = x.intExpr(se.Low)
+		}
+		if se.High != nil {
+			hi = x.intExpr(se.High)
+		}
+		dst = se.X
+	}
+	src := x.expr(c.Args[1])
+	x.usesRtX = true
+	window := func(cur string) string {
+		h := hi
+		if h == "" {
+			h = "Go.len " + paren(cur)
+		}
+		return fmt.Sprintf("Go.copyInto %s %s %s", paren(cur), paren(lo), paren(h))
+	}
+	switch d := dst.(type) {
+	case *ast.Ident:
+		ty, ok := x.env[d.Name]
+		if !ok || ty.k != kList {
+			x.bad(c, "copy into %s, which is not a slice variable", d.Name)
+		}
+		if x.shared[d.Name] {
+			x.bad(c, "copy into %s, which may share its backing array with another variable", d.Name)
+		}
+		if x.mentions(c.Args[1], d.Name) {
+			x.bad(c, "copy whose source mentions its destination %s (overlapping copy)", d.Name)
+		}
+		return fmt.Sprintf("let %s : %s := %s %s", ident(d.Name), ty.lean(), window(ident(d.Name)), paren(x.co(c.Args[1], src, ty)))
+	case *ast.SelectorExpr:
+		if x.mentions(c.Args[1], lvalueBase(d)) && strings.Contains(exprText(c.Args[1]), exprText(d)) {
+			x.bad(c, "copy whose source mentions its destination %s (overlapping copy)", exprText(d))
+		}
+		var fty *xty
+		out := x.storeField(c, d, func(cur string, ty *xty) string {
+			fty = ty
+			return window(cur) + " " + paren(x.co(c.Args[1], src, ty))
+		})
+		_ = fty
+		return out
+	}
+	x.bad(c, "copy destination %T", dst)
 	return ""
 }
 
@@ -821,6 +884,15 @@ func translateExt(fset *token.FileSet, load fileLoader, sp spec, known map[strin
 			primBinders = append(primBinders, "(growCap : Int → Int → Int)")
 			continue
 		}
+		if p == "maxFloat32" { // math.MaxFloat32 under spec.FloatAbs: an abstract value of the float type (nothing assumed about it)
+			if sp.FloatAbs == "" {
+				x.bad(fd, "spec.Prims maxFloat32 needs spec.FloatAbs")
+			}
+			x.prims[p] = true
+			x.env["maxFloat32"] = &xty{k: kOrd, name: sp.FloatAbs}
+			primBinders = append(primBinders, fmt.Sprintf("(maxFloat32 : %s)", sp.FloatAbs))
+			continue
+		}
 		if lt, ok := primTypes[p]; ok { // polymorphic library function, used by name
 			x.prims[p] = true
 			x.poly = x.poly || strings.Contains(lt, "Go.Any α")
@@ -868,7 +940,17 @@ func translateExt(fset *token.FileSet, load fileLoader, sp spec, known map[strin
 		for _, n := range p.Names {
 			ty := x.goTy(p.Type)
 			if _, isPtr := p.Type.(*ast.StarExpr); isPtr {
-				x.ptrParams[n.Name] = true
+				// a fragment that names the pointer parameter among its Results RETURNS the struct it points to: writes
+				// through it are what the fragment computes, not a hidden effect on the caller
+				returned := false
+				if sp.Frag != nil {
+					for _, r := range sp.Frag.Results {
+						returned = returned || r == n.Name
+					}
+				}
+				if !returned {
+					x.ptrParams[n.Name] = true
+				}
 			}
 			if oracle[n.Name] {
 				if ty.k != kFunc {
@@ -1027,7 +1109,17 @@ func translateExt(fset *token.FileSet, load fileLoader, sp spec, known map[strin
 	for _, r := range x.results {
 		hasErr = hasErr || r.k == kErr || r.k == kErrOpt
 	}
-	if !x.hasExit && len(x.extras) == 0 && len(pre) == 0 && fd.Recv != nil && sp.Frag == nil && !hasErr && len(x.tparams) == 0 && sp.Name == "" {
+	// (type parameters are implicit binders; those of a method are determined by its explicit receiver argument when the
+	// receiver's struct mentions all of them)
+	recvDetermines := fd.Recv != nil && x.recv != "" && x.env[x.recv] != nil
+	if recvDetermines {
+		tv := map[string]bool{}
+		x.env[x.recv].tvars(tv)
+		for _, p := range x.tparams {
+			recvDetermines = recvDetermines && tv[p]
+		}
+	}
+	if !x.hasExit && len(x.extras) == 0 && len(pre) == 0 && fd.Recv != nil && sp.Frag == nil && !hasErr && (len(x.tparams) == 0 || recvDetermines) && sp.Name == "" {
 		ft := &xty{k: kFunc, results: x.results}
 		for _, p := range fd.Type.Params.List {
 			for range p.Names {
@@ -1111,6 +1203,13 @@ func fragmentFunc(fset *token.FileSet, fd *ast.FuncDecl, sp spec) *ast.FuncDecl 
 		for i, s := range b.List {
 			if !hasPrefixAny(line(s), fr.First) {
 				continue
+			}
+			if fr.Has != "" {
+				var w strings.Builder
+				printer.Fprint(&w, fset, s)
+				if !strings.Contains(strings.Join(strings.Fields(w.String()), " "), fr.Has) {
+					continue
+				}
 			}
 			matches++
 			for j := i; j < len(b.List); j++ {
